@@ -511,19 +511,20 @@ theorem sumOver_neg (g g' : Tx → Int) (l : List Tx) (h : ∀ t ∈ l, g' t = -
     have h2 := ih (fun x hx => h x (by simp [hx]))
     simp only [sumOver]; omega
 
-/-- all coins transactions of the list took effect (receipt ExecOk) and none is a genesis action. -/
-def CoinsAllOk (txs : List Tx) : Prop :=
-  ∀ t ∈ txs, t.coins = .none ∨ (t.rty = execOk ∧ ∀ a, t.coins ≠ .genesis a)
+/-- no genesis action of the list executed successfully: `Exec_Genesis` returns ErrReRunGenesis at every height
+above 0 (there is no `ExecDelLocal_Genesis`; the genesis block is never removed). -/
+def NoGenesisOk (txs : List Tx) : Prop :=
+  ∀ t ∈ txs, ∀ a, t.coins = .genesis a → t.rty ≠ execOk
 
-theorem coins_step_neg (k : Key) (t : Tx) (h : t.coins = .none ∨ (t.rty = execOk ∧ ∀ a, t.coins ≠ .genesis a)) :
+theorem coins_step_neg (k : Key) (t : Tx) (h : ∀ a, t.coins = .genesis a → t.rty ≠ execOk) :
     deltaSum (proj k (coinsDelStep t)) = - deltaSum (proj k (coinsAddStep t)) := by
   unfold coinsDelStep coinsAddStep
-  rcases h with h | ⟨h1, h2⟩
-  · simp [h, proj, deltaSum]
-  · simp only [h1, ne_eq, not_true_eq_false, if_false]
+  by_cases hr : t.rty ≠ execOk
+  · simp [hr, proj, deltaSum]
+  · simp only [hr, if_false]
     cases hc : t.coins with
     | none => simp [proj, deltaSum]
-    | genesis a => exact absurd hc (h2 a)
+    | genesis a => exact absurd (h a hc) hr
     | transfer a =>
       simp only [proj, List.filter, Step.key]
       by_cases e : Key.recv t.to = k <;> simp [e, deltaSum, Step.delta]
@@ -537,7 +538,10 @@ theorem coins_step_neg (k : Key) (t : Tx) (h : t.coins = .none ∨ (t.rty = exec
 theorem coinsAddStep_shape (t : Tx) : ∀ s ∈ coinsAddStep t, s.isBump = true ∧ s.key.isCounter = true := by
   intro s hs
   unfold coinsAddStep at hs
-  cases hc : t.coins <;> simp [hc] at hs <;> subst hs <;> simp [Step.isBump, Step.key, Key.isCounter]
+  by_cases e : t.rty ≠ execOk
+  · simp [e] at hs
+  · simp only [e, if_false] at hs
+    cases hc : t.coins <;> simp [hc] at hs <;> subst hs <;> simp [Step.isBump, Step.key, Key.isCounter]
 
 theorem coinsDelStep_shape (t : Tx) : ∀ s ∈ coinsDelStep t, s.isBump = true ∧ s.key.isCounter = true := by
   intro s hs
@@ -557,7 +561,7 @@ theorem coinsSteps_shape (adding : Bool) (txs : List Tx) :
   · simp only [if_true, List.mem_flatMap] at hs
     obtain ⟨t, _, h⟩ := hs; exact coinsAddStep_shape t s h
 
-theorem coins_counter (k : Key) (txs : List Tx) (H : CoinsAllOk txs) :
+theorem coins_counter (k : Key) (txs : List Tx) (H : NoGenesisOk txs) :
     CounterBalanced k (coinsSteps true txs) (coinsSteps false txs) := by
   refine ⟨?_, ?_, ?_⟩
   · intro s hs; exact (coinsSteps_shape true txs s (mem_proj hs).1).1
